@@ -24,7 +24,11 @@ import re
 
 
 class SQLDoubleError(Exception):
-    pass
+    """the statement is well-formed for the double but wrong for the table (no such column / table)"""
+
+
+class SQLDoubleUnsupported(SQLDoubleError):
+    """the statement uses SQL the double does not parse or model: nothing is decided about it"""
 
 
 _TOKEN_CACHE = {}
@@ -52,7 +56,7 @@ def _tokens_uncached(sql):
             val = ''
             while True:
                 if j >= n:
-                    raise SQLDoubleError('unterminated identifier in %r' % sql)
+                    raise SQLDoubleUnsupported('unterminated identifier in %r' % sql)
                 if sql[j] == '"':
                     if j + 1 < n and sql[j + 1] == '"':
                         val += '"'
@@ -68,7 +72,7 @@ def _tokens_uncached(sql):
             val = ''
             while True:
                 if j >= n:
-                    raise SQLDoubleError('unterminated string literal in %r' % sql)
+                    raise SQLDoubleUnsupported('unterminated string literal in %r' % sql)
                 if sql[j] == "'":
                     if j + 1 < n and sql[j + 1] == "'":
                         val += "'"
@@ -92,7 +96,7 @@ def _tokens_uncached(sql):
             out.append(('sym', c))
             i += 1
         else:
-            raise SQLDoubleError('unexpected character %r in %r' % (c, sql))
+            raise SQLDoubleUnsupported('unexpected character %r in %r' % (c, sql))
     return out
 
 
@@ -112,7 +116,7 @@ class _P:
     def take(self, kind=None, val=None):
         tk = self.peek()
         if (kind is not None and tk[0] != kind) or (val is not None and tk[1] != val):
-            raise SQLDoubleError('expected %s %s at token %d of %r, found %r' % (kind, val, self.i, self.sql, tk))
+            raise SQLDoubleUnsupported('expected %s %s at token %d of %r, found %r' % (kind, val, self.i, self.sql, tk))
         self.i += 1
         return tk[1]
 
@@ -125,7 +129,7 @@ class _P:
     def done(self):
         self.maybe('sym', ';')
         if self.i != len(self.t):
-            raise SQLDoubleError('trailing text in %r' % self.sql)
+            raise SQLDoubleUnsupported('trailing text in %r' % self.sql)
 
 
 class FakeCursor:
@@ -171,7 +175,7 @@ class FakeConnection:
         if p.maybe('word', 'PRAGMA'):
             fn = p.take('word')
             if fn != 'table_info':
-                raise SQLDoubleError('unsupported pragma %r' % fn)
+                raise SQLDoubleUnsupported('unsupported pragma %r' % fn)
             p.take('sym', '(')
             t = p.take('word')
             p.take('sym', ')')
@@ -187,7 +191,7 @@ class FakeConnection:
         if t == 'sqlite_master':
             # table existence probes
             if sel != ('count*',):
-                raise SQLDoubleError('unexpected query on sqlite_master')
+                raise SQLDoubleUnsupported('unexpected query on sqlite_master')
             if p.maybe('word', 'WHERE'):
                 names = [v for k, v in p.t[p.i:] if k == 'str']
                 return [(1 if self.table in names else 0,)]
@@ -251,7 +255,7 @@ class FakeConnection:
             p.take('sym', '(')
             agg = p.take('word')
             if agg not in ('MIN', 'MAX'):
-                raise SQLDoubleError('expected MIN/MAX')
+                raise SQLDoubleUnsupported('expected MIN/MAX')
             p.take('sym', '(')
             p.take('word', 'CAST')
             p.take('sym', '(')
@@ -263,12 +267,12 @@ class FakeConnection:
             p.take('sym', '<>')
             z = p.take('word')
             if z != '0':
-                raise SQLDoubleError('expected 0')
+                raise SQLDoubleUnsupported('expected 0')
             p.take('sym', ')')
             return ('boolagg', agg, c)
         agg = p.take('word')
         if agg not in ('MIN', 'MAX'):
-            raise SQLDoubleError('unsupported select %r' % agg)
+            raise SQLDoubleUnsupported('unsupported select %r' % agg)
         p.take('sym', '(')
         if p.maybe('word', 'LENGTH'):
             p.take('sym', '(')
@@ -310,7 +314,7 @@ class FakeConnection:
         if kind == 'boolagg':
             m = self._agg(sel[1], [None if v is None else int(v) for v in vals])
             return [(None if m is None else (1 if m != 0 else 0),)]
-        raise SQLDoubleError(kind)
+        raise SQLDoubleUnsupported(kind)
 
 
 def _distinct(vals):
